@@ -75,6 +75,10 @@ func baseAlphabet(keys []int, cfg CacheCfg, rich bool) []string {
 			a = append(a, fmt.Sprintf("adv %d", 2*tickNs+7))
 		}
 	}
+	if cfg.Expiry != "" && rich {
+		// iterations during which the clock passes a deadline (inside the loop body)
+		a = append(a, "alladv 100", "keysadv 60", "coldestadv 100")
+	}
 	if cfg.MaxSize > 0 || cfg.MaxWeight > 0 {
 		a = append(a, "setmax 1", "setmax 3")
 		if rich {
